@@ -76,23 +76,34 @@ impl<T: Copy> Block for RationalResampler<T> {
         let mut opos = 0;
         let mut taken = 0;
         let mut out_full = false;
-        'outer: for s in i.iter() {
+        let mut out_need = 1;
+        for s in i.iter() {
+            // Only take a sample if all of its output copies fit. Otherwise the
+            // remaining copies would be emitted with the value of the *next*
+            // input sample.
+            let counter = self.counter + self.interp;
+            let copies = if counter > 0 {
+                ((counter + self.deci - 1) / self.deci) as usize
+            } else {
+                0
+            };
+            if opos + copies > o.len() {
+                out_full = true;
+                out_need = copies;
+                break;
+            }
             taken += 1;
-            self.counter += self.interp;
+            self.counter = counter;
             while self.counter > 0 {
                 o.slice()[opos] = *s;
                 self.counter -= self.deci;
                 opos += 1;
-                if opos == o.len() {
-                    out_full = true;
-                    break 'outer;
-                }
             }
         }
         i.consume(taken);
         o.produce(opos, &[]);
         Ok(if out_full {
-            BlockRet::WaitForStream(&self.dst, 1)
+            BlockRet::WaitForStream(&self.dst, out_need)
         } else {
             BlockRet::WaitForStream(&self.src, 1)
         })
